@@ -21,6 +21,7 @@ const char *vf_name = "c10_global";
 #define MAXDEPTH 4
 #define MAXU     96
 #define MAXVAL   320
+#define LONGVAL  250   /* beyond the small text metatype */
 
 static char names[MAXNAMES][260];
 static size_t namelen[MAXNAMES];
@@ -116,6 +117,30 @@ static MPT_INTERFACE(config) *global_cfg(void)
 	return cfg;
 }
 
+/* path in binary (length-linked) format, built the way the parser does;
+ * returns 0 when the entry cannot be expressed (element > 255 bytes, leading
+ * empty element without storage) */
+static int binpath(MPT_STRUCT(path) *p, const struct entry *x)
+{
+	static const MPT_STRUCT(path) init = MPT_PATH_INIT;
+	*p = init;
+	p->flags = MPT_PATHFLAG(SepBinary);
+	if (!x->n || !namelen[x->e[0]]) return 0;
+	for (int k = 0; k < x->n; k++) if (namelen[x->e[k]] > 255) return 0;
+	for (int k = 0; k < x->n; k++) {
+		size_t l = namelen[x->e[k]];
+		for (size_t i = 0; i < l; i++) {
+			vf_at("mpt_path_addchar");
+			if (mpt_path_addchar(p, names[x->e[k]][i]) < 0) vf_fail("model:path_addchar:refused", "binary path for '%s'", show(x));
+			mpt_path_valid(p);
+		}
+		vf_at("mpt_path_add");
+		if (mpt_path_add(p, (int) l) < 0) vf_fail("model:path_add:refused", "binary path for '%s' element %d", show(x), k);
+	}
+	vf_count("state:binary-path", 1);
+	return 1;
+}
+
 /* --------------------------------------------------------------- the audit */
 static char pbuf[4 * 262 + 16];
 
@@ -126,9 +151,14 @@ static void audit_one(const char *after, int i, MPT_INTERFACE(config) *cfg, int 
 	MPT_STRUCT(path) p = MPT_PATH_INIT;
 	const char *got = (const char *) 1;
 	int rc;
-	render(pbuf, x, from, x->n, sep);
-	p.sep = (char) sep;
-	if (from < x->n) mpt_path_set(&p, pbuf, -1);
+	int bin = !from && !cfg && (i % 4 == 3) && binpath(&p, x);
+	if (!bin) {
+		static const MPT_STRUCT(path) init = MPT_PATH_INIT;
+		p = init;
+		render(pbuf, x, from, x->n, sep);
+		p.sep = (char) sep;
+		if (from < x->n) mpt_path_set(&p, pbuf, -1);
+	} else via = "binary-path";
 	/* value */
 	vf_at("mpt_config_getp");
 	rc = mpt_config_getp(cfg, &p, 's', &got);
@@ -150,6 +180,7 @@ static void audit_one(const char *after, int i, MPT_INTERFACE(config) *cfg, int 
 	if (x->exists) VF_CHECK(rc >= 0, "model:query:node-missing", "after %s: %s existence query of '%s' returned %d, model has the node", after, via, show(x), rc);
 	else VF_CHECK(rc < 0, "model:query:phantom-node", "after %s: %s existence query of '%s' returned %d, model has no such node", after, via, show(x), rc);
 	vf_count("monitor:existence-compares", 1);
+	if (bin) mpt_path_fini(&p);
 }
 static void audit(const char *after)
 {
@@ -197,7 +228,7 @@ static size_t gen_value(vf_rng *r, char *dst)
 	return l;
 }
 
-uint64_t vf_cases(void) { return vf_thorough ? 40000 : 1600; }
+uint64_t vf_cases(void) { return vf_thorough ? 40000 : 3000; }
 
 void vf_case(uint64_t idx, vf_rng *r)
 {
@@ -258,14 +289,21 @@ void vf_case(uint64_t idx, vf_rng *r)
 			vf_at("mpt_config_set");
 			vf_count("mpt_config_set:assign", 1);
 			if (x->hasval) { overw++; vf_count("state:overwrite", 1); }
-			if (vl >= 255) vf_count("state:long-value", 1);
+			if (vl >= LONGVAL) vf_count("state:long-value", 1);
 			vf_fp(val, vl);
 			int rc = mpt_config_set(0, pbuf, val, sep, end);
-			VF_CHECK(rc >= 0, "model:assign:refused", "%s returned %d", what, rc);
-			m_set(t, val, vl);
-			sets++;
+			if (rc < 0 && vl >= LONGVAL) {
+				/* long values are the business of the value storage (C04/C05/C09):
+				 * a refusal must leave the map as it was */
+				vf_count("outcome:long-value-refused", 1);
+			} else {
+				VF_CHECK(rc >= 0, "model:assign:refused", "%s returned %d", what, rc);
+				m_set(t, val, vl);
+				if (vl >= LONGVAL) vf_count("outcome:long-value-stored", 1);
+				sets++;
+			}
 		}
-		else if (k < 58) {
+		else if (k < 54) {
 			/* remove through the global interface */
 			render(pbuf, x, 0, x->n, sep);
 			snprintf(what, sizeof(what), "remove('%s'%s, sep '%c')", show(x), x->exists ? "" : " [absent]", sep);
@@ -280,6 +318,39 @@ void vf_case(uint64_t idx, vf_rng *r)
 			if (x->exists) VF_CHECK(rc >= 0, "model:remove:refused", "%s returned %d", what, rc);
 			m_remove(t, 1);
 			removes++;
+		}
+		else if (k < 59) {
+			/* assign / remove with a binary path through the config interface */
+			MPT_STRUCT(path) bp;
+			MPT_INTERFACE(config) *cfg = global_cfg();
+			if (!binpath(&bp, x)) { mpt_path_fini(&bp); continue; }
+			if (vf_chance(r, 2, 3)) {
+				size_t vl = vf_below(r, 12);
+				for (size_t q = 0; q < vl; q++) val[q] = (char) ('0' + vf_below(r, 10));
+				val[vl] = 0;
+				const char *vp = val;
+				MPT_STRUCT(value) d = MPT_VALUE_INIT('s', &vp);
+				snprintf(what, sizeof(what), "assign(binary path '%s', %zu bytes)", show(x), vl);
+				vf_log("%s", what);
+				vf_at("config::assign");
+				vf_count("config::assign:binary-path", 1);
+				if (x->hasval) { overw++; vf_count("state:overwrite", 1); }
+				vf_fp(val, vl);
+				int rc = cfg->_vptr->assign(cfg, &bp, &d);
+				VF_CHECK(rc >= 0, "model:assign:refused", "%s returned %d", what, rc);
+				m_set(t, val, vl);
+				sets++;
+			} else {
+				snprintf(what, sizeof(what), "remove(binary path '%s')%s", show(x), x->exists ? "" : " [absent]");
+				vf_log("%s", what);
+				vf_at("config::remove");
+				vf_count("config::remove:binary-path", 1);
+				int rc = cfg->_vptr->remove(cfg, &bp);
+				if (x->exists) VF_CHECK(rc >= 0, "model:remove:refused", "%s returned %d", what, rc);
+				m_remove(t, 1);
+				removes++;
+			}
+			mpt_path_fini(&bp);
 		}
 		else if (k < 60) {
 			snprintf(what, sizeof(what), "clear everything");
@@ -333,9 +404,15 @@ void vf_case(uint64_t idx, vf_rng *r)
 				if (!U[v->base].exists) vf_count("state:view-base-created", 1);
 				vf_fp(val, vl);
 				int rc = mpt_config_set(v->cfg, self ? 0 : pbuf, val, sep, 0);
-				VF_CHECK(rc >= 0, "model:view-assign:refused", "%s returned %d", what, rc);
-				m_set(t, val, vl);
-				sets++;
+				if (rc < 0 && vl >= LONGVAL) {
+					vf_count("outcome:long-value-refused", 1);
+					m_touch(v->base);   /* the base path of the view is created first */
+				} else {
+					VF_CHECK(rc >= 0, "model:view-assign:refused", "%s returned %d", what, rc);
+					m_set(t, val, vl);
+					if (vl >= LONGVAL) vf_count("outcome:long-value-stored", 1);
+					sets++;
+				}
 			} else {
 				snprintf(what, sizeof(what), "view('%s').remove('%s')%s", show(b), self ? "" : show(x), x->exists ? "" : " [absent]");
 				vf_log("%s", what);
